@@ -1756,3 +1756,52 @@ Proof.
   destruct (select_hull _ _ _ _ _ _ I E) as (H1 & H2 & H3 & H4).
   rewrite <- E, <- H4. apply trapz_is_pl_integral; auto.
 Qed.
+
+(* ------------------------------------------------------------------ *)
+(* sessions on one live object: resizing calls, value assignments, queries *)
+Lemma do_call_wf s c : wf s -> call_ok s c -> wf (fst (fst (do_call s c))).
+Proof.
+  intros W H. destruct c as [o|v|a b r|c r e pp]; simpl in *.
+  - apply exec_wf; auto.
+  - destruct W as (W1 & W2 & W3). repeat split; auto.
+  - destruct (integrate s a b r); auto.
+  - destruct (bin s c r e pp); auto.
+Qed.
+Lemma session_wf cs : forall s, wf s -> session_ok s cs ->
+  wf (after_session s cs) /\ Forall (fun r => wf (fst (fst r))) (session s cs).
+Proof.
+  induction cs as [|c t IH]; simpl; intros s W H; [split; auto|]. destruct H as [H1 H2].
+  pose proof (do_call_wf s c W H1) as W'. destruct (IH _ W' H2) as [I1 I2]. split; auto.
+Qed.
+(* a query leaves the object alone and answers from the object it is given *)
+Lemma query_pure s :
+  (forall a b r, fst (fst (do_call s (CIntegrate a b r))) = s /\
+     match integrate s a b r with
+     | Ok x => do_call s (CIntegrate a b r) = ((s, None), ANum x)
+     | Err e => do_call s (CIntegrate a b r) = ((s, Some e), ANone) end) /\
+  (forall c r e pp, fst (fst (do_call s (CBin c r e pp))) = s /\
+     match bin s c r e pp with
+     | Ok b => do_call s (CBin c r e pp) = ((s, None), ABins b)
+     | Err e' => do_call s (CBin c r e pp) = ((s, Some e'), ANone) end).
+Proof.
+  split; intros; simpl.
+  - destruct (integrate s a b r); auto.
+  - destruct (bin s c r e pp); auto.
+Qed.
+Lemma lincomb_scale k v : lincomb k v 0 v = map (Qcmult k) v.
+Proof. unfold lincomb. induction v as [|y v IH]; simpl; auto. rewrite IH. f_equal. ring. Qed.
+(* new values k*v assigned on the same grid: every integral is multiplied by k *)
+Lemma integrate_scaled s k lo hi r : length (value s) = length (wave s) ->
+  match integrate s lo hi r, integrate (set_value s (map (Qcmult k) (value s))) lo hi r with
+  | Ok i, Ok j => j = k * i
+  | Err e1, Err e2 => e1 = e2
+  | _, _ => False
+  end.
+Proof.
+  intros L. destruct s as [w v]. simpl in *. unfold set_value. simpl.
+  pose proof (integrate_linear w v v k 0 lo hi r L L) as H. rewrite lincomb_scale in H. unfold rlin in H.
+  destruct (integrate {| wave := w; value := v |} lo hi r) as [i|e1];
+    destruct (integrate {| wave := w; value := map (Qcmult k) v |} lo hi r) as [j|e2]; auto.
+  - rewrite H. ring.
+  - tauto.
+Qed.
